@@ -103,6 +103,7 @@ func c01Expect(anc []uint32, place []int, v int) (live []int) {
 
 // builtDAG is a DAG realised in a real repo.
 type builtDAG struct {
+	onlyLast bool // read at the last node only
 	spec dagSpec
 	root dvid.UUID
 	uuid []dvid.UUID
@@ -258,6 +259,44 @@ func runC01(c *vlib.Ctx) {
 			c.Cap(fmt.Sprintf("n=%d: wall-clock budget reached after %d of %d DAGs (strided order); all DAGs on <= %d nodes fully covered", n, done6, len(specs), n-1))
 		}
 	}
+	// quick and thorough: a 6-node family that needs no budget - the first five nodes form a DAG with at most one
+	// 2-parent merge, the sixth is an ordered 2-parent merge of any two of them (3360 DAGs: merges of a node with its own
+	// descendant, of a conflicted sub-merge with the lineage that resolved it, of a pass-through sibling with a deep
+	// lineage); read at the merge node only.
+	{
+		var specs []dagSpec
+		enumDAGs(6, func(d dagSpec) {
+			merges := 0
+			for i := 1; i < 5; i++ {
+				if len(d[i]) == 3 {
+					return
+				}
+				if len(d[i]) == 2 {
+					merges++
+				}
+			}
+			if merges <= 1 && len(d[5]) == 2 {
+				specs = append(specs, d)
+			}
+		})
+		vlib.Par(len(specs), 16, func(si int) {
+			b, err := buildDAG(specs[si])
+			if err != nil {
+				c.Violate("harness:build:"+specs[si].String(), err.Error(), nil)
+				return
+			}
+			defer b.drop()
+			if err := b.checkMirror(); err != nil {
+				c.Violate("mirror:"+specs[si].String(), "real DAG differs from requested shape: "+err.Error(), map[string]interface{}{"dag": specs[si]})
+				return
+			}
+			b.onlyLast = true
+			atomic.AddInt64(&traces, 1)
+			atomic.AddInt64(&transitions, 11)
+			c01Resolver(c, b, synth, tk, &states)
+		})
+		c.Set("dags_n6_final_merge_family", len(specs))
+	}
 	c.Sample(map[string]interface{}{"dag": "1<-[0] 2<-[0] 3<-[2] 4<-[1 2 3]", "placement": "node1=value node2=value node3=tombstone", "query": 4, "expect": "value written at node 1"})
 
 	// end-to-end layer through the HTTP key-value API
@@ -305,6 +344,9 @@ func c01Resolver(c *vlib.Ctx, b *builtDAG, data datastore.DataService, tk storag
 		}
 		orders := c01Orders(entries)
 		for v := 0; v < n; v++ {
+			if b.onlyLast && v != n-1 {
+				continue
+			}
 			st++
 			live := c01Expect(anc, place, v)
 			nEnt := 0
